@@ -3,7 +3,7 @@
    rotation kernel is an oracle whose optimality is C06; contacts are Model_contact (C05/C14),
    the superposition step is Model_superpose (C13)).  Spec: Spec_rmsd. *)
 From Verif Require Import PyLib ModelTypes Generated_parse Generated_rmsd Model_contact Model_superpose Spec_superpose
-  Model_rmsd Spec_rmsd Proofs_superpose Proofs_rmsd Proofs_contact_c05 Proofs_izone.
+  Model_rmsd Spec_rmsd Proofs_superpose Proofs_rmsd Proofs_contact_c05 Proofs_izone Proofs_rigid_rmsd Proofs_superpose_opt Proofs_rmsd_opt.
 Open Scope Q_scope.
 
 (* the three fixed-column readers of the fast routes read today's wwPDB columns (regenerated) *)
@@ -53,6 +53,17 @@ Theorem C07_value_is_kernel_residual : forall rmat xd xr m,
   m == resid (map (mv rmat) (centred xd)) (centred xr) / inject_Z (Z.of_nat (List.length xd)).
 Proof. exact irmsd_value_is_kernel_residual. Qed.
 Print Assumptions C07_value_is_kernel_residual.
+
+(* ... and under that hypothesis the reported value is minimal over ALL rigid motions (any rotation r', any
+   translation t') of the mean squared deviation of the paired atoms: the centring the pipelines do is the optimal
+   translation for every rotation (centroid decomposition, C13_residual_decomposition) *)
+Theorem C07_value_minimal_over_rigid_motions : forall rmat xd xr m,
+  (forall r', orthogonal r' ->
+     resid (map (mv rmat) (centred xd)) (centred xr) <= resid (map (mv r') (centred xd)) (centred xr)) ->
+  msd (superpose_selection rmat xd xr xd) xr = Ok m ->
+  forall r' t' m', orthogonal r' -> msd (map (affine r' t') xd) xr = Ok m' -> m <= m'.
+Proof. exact value_minimal_over_rigid_motions. Qed.
+Print Assumptions C07_value_minimal_over_rigid_motions.
 
 (* a decoy identical to the reference scores 0 *)
 Theorem C07_identical_scores_zero : forall rmat P m,
